@@ -46,6 +46,9 @@ func (eng) Cases(seed uint64, tier string) []core.CaseDesc {
 		n = 10000
 	}
 	var cs []core.CaseDesc
+	for i := 0; i < 8; i++ {
+		cs = append(cs, core.CaseDesc{ID: fmt.Sprintf("subswin/%02d", i), Kind: "subswin", Seed: seed*1000003 + uint64(i)})
+	}
 	for i := 0; i < n; i++ {
 		cs = append(cs, core.CaseDesc{ID: fmt.Sprintf("disp/%05d", i), Kind: "disp", Seed: seed*1000003 + uint64(i)})
 	}
@@ -95,8 +98,90 @@ type dispHandlers struct {
 	*ssam.DisposedHandlers
 }
 
+// runSubsWindow: Dispose lands after a transition was applied and before its
+// matched subscriptions are closed (the processing goroutine is parked at
+// pq.before-subs until the disposing flag is up). Every channel - matched in
+// that transition or not - has to be closed once the disposal completed.
+func runSubsWindow(res *core.CaseResult, c core.CaseDesc) {
+	r := gen.NewRand(c.Seed, 131)
+	m := am.New(context.Background(), am.Schema{"A": {}, "B": {}, "C": {Multi: true}}, &am.Opts{Id: "c13sw", DontLogId: true, DontLogStackTrace: true})
+	m.DisposeTimeout = 3 * time.Second
+	type sub struct {
+		name string
+		ch   <-chan struct{}
+	}
+	subs := []sub{
+		{"When[A]", m.When1("A", nil)},
+		{"WhenTime1[A>=1]", m.WhenTime1("A", 1, nil)},
+		{"WhenTicks[A,1]", m.WhenTicks("A", 1, nil)},
+		{"WhenQuery[A active]", m.WhenQuery(func(cl am.Clock) bool { return am.IsActiveTick(cl["A"]) }, nil)},
+		{"When[B] (not matched)", m.When1("B", nil)},
+		{"WhenNot[A] later", nil},
+	}
+	if r.IntN(2) == 0 {
+		subs = append(subs, sub{"WhenArgs[A]", m.WhenArgs("A", am.A{"k": 1}, nil)})
+	}
+	am.VerifHookClear()
+	defer am.VerifHookClear()
+	parked := make(chan struct{}, 1)
+	gate := make(chan struct{})
+	flagged := make(chan struct{}, 1)
+	var once, once2 sync.Once
+	am.VerifHookSet("pq.before-subs", func() {
+		once.Do(func() {
+			parked <- struct{}{}
+			select {
+			case <-gate:
+			case <-time.After(20 * time.Second):
+			}
+		})
+	})
+	am.VerifHookSet("dispose.flagged", func() { once2.Do(func() { flagged <- struct{}{} }) })
+	go m.Add1("A", am.A{"k": 1})
+	select {
+	case <-parked:
+	case <-time.After(10 * time.Second):
+		res.Inconclusive = "pq.before-subs not reached"
+		close(gate)
+		return
+	}
+	m.Dispose()
+	select {
+	case <-flagged:
+	case <-time.After(10 * time.Second):
+		res.Inconclusive = "dispose.flagged not reached"
+		close(gate)
+		return
+	}
+	close(gate)
+	select {
+	case <-m.WhenDisposed():
+	case <-time.After(20 * time.Second):
+		res.Inconclusive = "the disposal did not complete"
+		return
+	}
+	// let the parked queue goroutine finish its loop
+	time.Sleep(20 * time.Millisecond)
+	for _, s := range subs {
+		if s.ch == nil {
+			continue
+		}
+		res.Evals++
+		if !isClosed(s.ch) {
+			res.Violate("C13/open-after-dispose/matched-in-flight", fmt.Sprintf(
+				"%s is still open after Dispose completed (the disposal landed between the transition that activated A and the closing of its matched subscriptions)", s.name), nil)
+			return
+		}
+	}
+	res.Key("subswin", len(subs))
+}
+
 func (eng) Run(c core.CaseDesc, tier string) *core.CaseResult {
 	res := &core.CaseResult{Case: c}
+	if c.Kind == "subswin" {
+		runSubsWindow(res, c)
+		return res
+	}
 	r := gen.NewRand(c.Seed, 13)
 	modes := []string{"dispose", "double", "concurrent", "parentctx", "amhelp", "force"}
 	mode := modes[r.IntN(len(modes))]
